@@ -533,6 +533,12 @@ def check_sites(ctx, prog, rule, prop, seen, config_label="", exclude_fn=None, o
                     o = next(iter(owners))
                     if budget.get((o, sk)) is not None:
                         be, bkey = budget.get((o, sk)), (o, sk)
+                    elif sk.startswith("unwrap|"):
+                        # `x.try_into().unwrap()` rewritten as `first_chunk().expect(..)`: one reviewed "cannot fail" site of the
+                        # owner, whatever the spelling of the unwrap
+                        alt = [k_ for k_ in budget if k_[0] == o and k_[1].startswith("unwrap|")]
+                        if len(alt) == 1:
+                            be, bkey = budget.get(alt[0]), alt[0]
         allowed = be["max"] if be is not None and (not be.get("props") or prop in be["props"]) else 0
         allowed = max(0, allowed - spent.get(bkey, 0))
         if be is None and und and any(sk.startswith(k) for k in _LIN_KINDS):
